@@ -9,7 +9,7 @@ from ..callgraph import callgraph
 from ..canon import canon, linform, single_assignments, cexpr
 from ..lin import lin_eq
 from ..pm import src
-from ..q import FA, attr_stores, call_name, compare_parts, conjuncts, const, guard_facts, is_self_attr, walk_no_nested
+from ..q import FA, attr_stores, call_name, compare_parts, conjuncts, const, guard_facts, ifs_on, is_self_attr, walk_no_nested
 from ..resolve import resolver
 
 TECHNIQUE = "R-PROV: the compared value is the recorded value (who-writes + canonical forms); R-DOM/R-ORDER on the loop guards, the iteration caps and the finalised short-circuits; R-SIB on the criterion definitions; call-graph check that no likelihood evaluation is reachable before the finalised guard"
@@ -116,8 +116,10 @@ def run(ctx):
     ok_rt = want_any in got and ("self._stop_any", True) in got[want_any] and want_all in got and ("self._stop_any", False) in got[want_all] and len(rets) == 2
     ctx.ob("R-SIB", "C15.1", rt, "criteria meet their tolerances (c <= t pairwise) combined by any iff check_criteria == 'any', else all", ok_rt, f"{list(got)}")
     conf = ctx.fn(INS + ".configure_stopping_criterion")
-    sa_ = [n for n in walk_no_nested(conf.node) if isinstance(n, ast.If) and canon(n.test) == "check_criteria == 'any'"]
-    oks = len(sa_) == 1 and canon(sa_[0].body[0]) == "self._stop_any = True" and canon(sa_[0].orelse[0]) == "self._stop_any = False"
+    sa_ = ifs_on(conf.node, "check_criteria == 'any'")
+    stores_ = [n for n in walk_no_nested(conf.node) if isinstance(n, ast.Assign) and src(n.targets[0]) == "self._stop_any"]
+    oks = (len(sa_) == 1 and len(stores_) == 2 and len(sa_[0][1]) == 1 and len(sa_[0][2]) == 1 and canon(sa_[0][1][0]) == "self._stop_any = True" and canon(sa_[0][2][0]) == "self._stop_any = False") \
+        or (len(stores_) == 1 and canon(stores_[0].value) == "check_criteria == 'any'")
     ctx.ob("R-SIB", "C15.1", conf, "_stop_any is True exactly for check_criteria == 'any'", oks, "")
     csc = ctx.fn(INS + ".compute_stopping_criterion")
     rr = [n for n in walk_no_nested(csc.node) if isinstance(n, ast.Return)]
